@@ -459,6 +459,7 @@ func c40NoWrap(c *Ctx, calc *ssa.Function, sc *c40Scale, fWeight *types.Var, st 
 	cons := "CalculateBucketsForGateways:scale-2^" + fmt.Sprint(sc.S)
 	if sc.Wide {
 		c.OK("C40.no-wrap", cons, "128-bit multiply (math/bits.Mul64)")
+		c40WideCarry(c, sc)
 		return
 	}
 	if sc.Width == 0 || sc.Width <= sc.S {
@@ -964,5 +965,77 @@ func c40Sticky(c *Ctx, bal *ssa.Function, pkt *types.Named) {
 	if len(primary) > 0 && len(fallback) > 0 {
 		notReady := gBool("balanced gateway not ready", false, 1, CallSpec{Refs: []Ref{gohRef}, Args: map[int]func(ssa.Value) bool{1: chosen}})
 		c.requireGuards("C40.sticky", fn, fallback, "GetOrHandshake(other)", notReady)
+	}
+}
+
+// c40WideCarry: once the product lives in two 64-bit words, everything added to the low word before
+// the 128/64 division must carry into the high word: a plain 64-bit add on the low word wraps (the
+// rounding term total/2 is unbounded) and the quotient is then short by 2^64/total.
+func c40WideCarry(c *Ctx, sc *c40Scale) {
+	mul, ok := sc.Instr.(*ssa.Call)
+	if !ok {
+		return
+	}
+	fn := mul.Parent()
+	cons := fnName(fn) + ":low-word-carry"
+	isBits := func(call *ssa.Call, name string) bool {
+		o := calleeObj(call)
+		return o != nil && o.Pkg() != nil && o.Pkg().Path() == "math/bits" && o.Name() == name
+	}
+	fromLo := func(v ssa.Value) bool {
+		return derivesFrom(v, sliceThrough, func(x ssa.Value) bool {
+			ex, ok := x.(*ssa.Extract)
+			return ok && ex.Tuple == ssa.Value(mul) && ex.Index == 1
+		})
+	}
+	var divs []*ssa.Call
+	eachInstr(fn, func(in ssa.Instruction) {
+		if call, ok := in.(*ssa.Call); ok && isBits(call, "Div64") && fromLo(call.Call.Args[1]) {
+			divs = append(divs, call)
+		}
+	})
+	if len(divs) == 0 {
+		return // the product is not divided in two-word form here: nothing to carry
+	}
+	for _, div := range divs {
+		hi, lo := div.Call.Args[0], div.Call.Args[1]
+		var plain []*ssa.BinOp
+		var adds []*ssa.Call
+		backSlice(lo, sliceThrough, func(x ssa.Value) {
+			switch e := x.(type) {
+			case *ssa.BinOp:
+				if e.Op == token.ADD && (fromLo(e.X) || fromLo(e.Y)) {
+					plain = append(plain, e)
+				}
+			case *ssa.Extract:
+				if call, ok := e.Tuple.(*ssa.Call); ok && e.Index == 0 && isBits(call, "Add64") {
+					adds = append(adds, call)
+				}
+			}
+		})
+		carried := true
+		for _, a := range adds {
+			carried = carried && derivesFrom(hi, sliceThrough, func(x ssa.Value) bool {
+				ex, ok := x.(*ssa.Extract)
+				return ok && ex.Tuple == ssa.Value(a) && ex.Index == 1
+			})
+		}
+		switch {
+		case len(plain) > 0:
+			// a manual carry (a comparison of the sum feeding the high word) is not followed
+			manual := derivesFrom(hi, sliceThrough, func(x ssa.Value) bool {
+				b, ok := x.(*ssa.BinOp)
+				return ok && (b.Op == token.LSS || b.Op == token.GTR || b.Op == token.LEQ || b.Op == token.GEQ)
+			})
+			if manual {
+				c.Unknown("C40.no-wrap", cons, "the low word is added to with a plain add and the high word depends on a comparison: manual carry not followed")
+			} else {
+				c.Bad("C40.no-wrap", cons, c.instrPos(plain[0]), "a term is added to the low word of the 128-bit product with a 64-bit add whose carry is dropped before the division: once the low word plus the rounding term reaches 2^64 (cumulative weight near 2^33 with a total of 2^32 or more, which the configuration accepts) the bound comes out short by 2^64/total, bounds stop being monotone and part of the hash space falls out of every bucket")
+			}
+		case !carried:
+			c.Bad("C40.no-wrap", cons, c.instrPos(div), "the carry of the 128-bit addition on the low word does not reach the high word handed to the division: the quotient is short by 2^64/total whenever the addition carries")
+		default:
+			c.OK("C40.no-wrap", cons, fmt.Sprintf("%d addition(s) on the low word, carry folded into the high word", len(adds)))
+		}
 	}
 }
